@@ -57,7 +57,7 @@ def run_homeo(chk: Check, rng: random.Random, thorough: bool):
         seen = []
 
         def deviate(op, ret, st):
-            if op.get("a") == "call" and ret.get("t") == "parts":
+            if op.get("a") == "call" and ret.get("t") == "parts":  # noqa
                 ret = dict(ret, pos=[v + 1 for v in ret["pos"]])
             return ret, st
         graph.replay(g, ik, make, budget=400, rng=rng, on_mismatch=lambda s, r: seen.append(s), deviate=deviate, max_mismatch=3)
